@@ -197,6 +197,8 @@ type Case struct {
 	FaultClass string
 	// File is the name the text is handed over under ("" = the plain name File); C16 source-name streams.
 	File string
+	// Classes are the input classes the text is counted under in the Distribution (linebreak.go).
+	Classes []string `json:",omitempty"`
 }
 
 func (c Case) file() string {
@@ -221,11 +223,24 @@ type Stats struct {
 	Classes   map[string]int64
 	Nontriv   *lib.Distinct
 	FaultsOK  int64
+	// per input class (Case.Classes): what the reference reader says about the emitted texts, and how many
+	// texts the generator did not emit because its mirror of dqExcluded puts them outside the claim
+	ClassOK, ClassRej, ClassInadm, ClassDropped map[string]int64
 }
 
 func NewStats() *Stats {
 	return &Stats{PerStream: map[string]int64{}, Classes: map[string]int64{}, Nontriv: lib.NewDistinct(),
-		InadmBy: map[string]int64{}, SpecOKBy: map[string]int64{}}
+		InadmBy: map[string]int64{}, SpecOKBy: map[string]int64{},
+		ClassOK: map[string]int64{}, ClassRej: map[string]int64{}, ClassInadm: map[string]int64{}, ClassDropped: map[string]int64{}}
+}
+
+// Dropped counts a text a generator did not emit because it lies outside the claim.
+func (st *Stats) Dropped(classes []string) {
+	st.mu.Lock()
+	defer st.mu.Unlock()
+	for _, k := range classes {
+		st.ClassDropped[k]++
+	}
 }
 
 func nontrivial(t string) bool {
@@ -436,13 +451,22 @@ func (ck *Checker) Run(cases []Case) {
 		case s == "inadmissible":
 			st.Inadm++
 			st.InadmBy[c.Stream]++
+			for _, k := range c.Classes {
+				st.ClassInadm[k]++
+			}
 		case s == "illformed":
 			st.Illformed++
 		case s == "rej":
 			st.SpecRej++
+			for _, k := range c.Classes {
+				st.ClassRej[k]++
+			}
 		default:
 			st.SpecOK++
 			st.SpecOKBy[c.Stream]++
+			for _, k := range c.Classes {
+				st.ClassOK[k]++
+			}
 		}
 		if ck.samples < 8 && i%(n/3+1) == 0 {
 			ck.samples++
@@ -563,6 +587,19 @@ func (ck *Checker) Finish() {
 		cl[k] = v
 	}
 	d["go_error_classes"] = cl
+	// characters next to a line break / carriage returns next to tokens: every class is listed, so that a
+	// class without a text the reference reader accepts is visible
+	lb := map[string]any{}
+	empty := []string{}
+	for _, k := range LinebreakClasses() {
+		lb[k] = map[string]int64{"spec_accepts": st.ClassOK[k], "spec_rejects": st.ClassRej[k],
+			"spec_inadmissible": st.ClassInadm[k], "not_emitted_outside_claim": st.ClassDropped[k]}
+		if st.ClassOK[k] == 0 {
+			empty = append(empty, k)
+		}
+	}
+	d["linebreak_classes"] = lb
+	d["linebreak_classes_without_accepted_text"] = empty
 	if ck.C16 {
 		d["single_fault_positions_confirmed"] = st.FaultsOK
 	}
@@ -614,6 +651,10 @@ func Seeds() []string {
 		"bbbb \"x\n      y\";\na \"x\n      y\";\n",
 		"k \"x\n     y\" +\n     \"x\n     y\";\n",
 		"pattern \"a\\tb\\\\d\"; x \"a\\tb\\\\d\" { pattern 'q' + \"a\\tb\\\\d\"; }",
+		// C02-k22: a carriage return that is separated from the line break by blanks is text (no CR LF pair here)
+		"a \"x\r \ny\";",
+		"a \"x \r  \n   y\";",
+		"a \"x\r\t\n\r \n\r\";",
 	}
 }
 
